@@ -13,6 +13,7 @@ CLAIMS = {
  'C06': 'flash_loan message order/content, callback authorisation with a symbolic sender, after_trade from an ARBITRARY post-callback state (the adversary is any balance/ledger), exact fee split, payback query vs after_trade (exact suffices, one less fails), deposit guard during loans, a depth-2 nested-loan history with arbitrary repayments, and the vault router next_loan / complete_loan obligations.',
  'C07': 'Per-step fee-ledger identities: swap bookkeeping against a symbolic SwapComputation (pending ledger, all-time counters, burn message, nothing else moves), collect (exact amounts, recipient, carve-out for the sub-threshold defect), ledgers untouched by deposits/withdrawals; vault after_trade / collect / other entry points.',
  'C14': 'Differential execution: the real Simulation query and the real swap execution run on one symbolic state (offer credited between the two); transferred return, recorded protocol fee, burned amount and every amount attribute equal the quote. Vault Share query equals the withdraw payout.',
+ 'C16': 'Table of privileged ExecuteMsg variants across 13 contracts, each executed through the real entry point with a SYMBOLIC sender identity: every accepting path (and every path whose unmodelled tail lies behind the authorisation check) implies sender == designated caller; rejecting paths write nothing; ownership transfer then privileged call for pair and vault.',
  'C17': 'Three symbolic toggle bits in the stored config; every guarded entry path of pair and vault: accepted only with its own bit on, rejected as disabled only with its own bit off (whatever the other bits), a paused call writes nothing; instantiate stores all bits true.',
  'C08': 'Inductive steps for bond / unbond / withdraw of the bonding contract with symbolic block time, record timestamps and unbonding period (so same block, +1ns, period-1, period are all in the domain), 0..2 (thorough 3) pending records plus another user\'s record, everyone else as symbolic aggregates: conservation, exact maturity rule, owner-only payout, Withdrawable query = withdraw.',
  'C09': 'Inductive steps for claim and for the new-epoch reply of the fee distributor over 2..3 stored epochs with symbolic consecutive ids, 1..2 assets, symbolic grace period, cursor and shares: claimed+available=total, payout = ledger decrease = floor(total*share), window and cursor rules, double claim rejected, rollover of the expiring epoch exactly once.',
